@@ -83,9 +83,8 @@ def _doc_ids(doc: str):
     if doc == "":
         return []
     ids = []
-    for ln in doc.split("\n"):
-        ln = ln.strip()
-        if ln.startswith("c") and ln[1:].isdigit():
+    for ln in doc.split("\n"):      # exact: a stray blank or carriage return in a doc comment is a difference
+        if ln.startswith("c") and ln[1:].isdigit() and ln == "c%d" % int(ln[1:]):
             ids.append(int(ln[1:]))
         else:
             ids.append(("?", ln))
